@@ -1,0 +1,23 @@
+//go:build verif
+
+package podtaskexecutor
+
+// Contracts for fvc (see /verif/DESIGN.md). Comment-only file.
+
+// ASSUMED here (decided for C18 in pkg/core/options): variable substitution of the pod spec
+//@ extern func SubstitutePodSpec
+//@   params rj, podSpec, taskSpec
+
+// The Pod created for (Job, parallel index, retry) carries that index's identity (C14) and is owned by the Job (C09).
+// The requires clause states that the package-level label key variables still have their distinct initial values.
+//@ func NewPod
+//@   tags C14, C09
+//@   requires rj != nil && template != nil
+//@   requires label-keys-distinct: LabelKeyJobUID != LabelKeyTaskRetryIndex && LabelKeyJobUID != LabelKeyTaskParallelIndexHash && LabelKeyTaskRetryIndex != LabelKeyTaskParallelIndexHash
+//@   ensures [C14,C09] name-from-index-and-retry: result1 == nil ==> result0 != nil && result0.Name == job.taskNameOf(rj.Name, index) && result0.Namespace == rj.Namespace
+//@   ensures [C14] index-hash-label: result1 == nil ==> (LabelKeyTaskParallelIndexHash in result0.Labels) && result0.Labels[LabelKeyTaskParallelIndexHash] == parallel.hashOf(index.Parallel)
+//@   ensures [C14,C08] retry-label: result1 == nil ==> (LabelKeyTaskRetryIndex in result0.Labels) && result0.Labels[LabelKeyTaskRetryIndex] == itoa(index.Retry)
+//@   ensures [C09] job-uid-label: result1 == nil ==> (LabelKeyJobUID in result0.Labels) && result0.Labels[LabelKeyJobUID] == string(rj.UID)
+//@   ensures [C09] owned-by-the-job: result1 == nil ==> len(result0.OwnerReferences) == 1 && result0.OwnerReferences[0].UID == rj.UID && result0.OwnerReferences[0].Name == rj.Name
+//@        && result0.OwnerReferences[0].Controller != nil && *result0.OwnerReferences[0].Controller
+//@   ensures result1 != nil ==> result0 == nil
